@@ -2,6 +2,7 @@ package disk
 
 import (
 	"fmt"
+	"math"
 
 	"golang.org/x/sys/unix"
 )
@@ -12,6 +13,11 @@ type FileDisk struct {
 }
 
 func NewFileDisk(path string, numBlocks uint64) (FileDisk, error) {
+	if numBlocks > math.MaxInt64/BlockSize {
+		// byte offsets (a*BlockSize, as uint64 and then int64) would wrap
+		// around, so that distinct blocks share one place in the file
+		return FileDisk{}, fmt.Errorf("disk of %d blocks is too large", numBlocks)
+	}
 	fd, err := unix.Open(path, unix.O_RDWR|unix.O_CREAT, 0666)
 	if err != nil {
 		return FileDisk{}, err
